@@ -448,9 +448,17 @@ Section Main.
   Theorem roundtrip v : G v = true -> read_text (print pc v) = ROk [v].
   Proof.
     intro Gv. destruct (RT_all v Gv) as (((c & t & E & HO) & R & _) & L).
-    unfold read_text, print. rewrite E. cbn [ReadBack.read_all length].
-    rewrite (drop_ws_head c t (head_ok_ws c HO)).
-    pose proof (R (4 * length (c :: t) + 4)%nat [] eq_refl) as R'. rewrite app_nil_r, <- E in R'.
-    rewrite <- E. rewrite R' by (rewrite E in L; simpl in *; lia). reflexivity.
+    unfold read_text, print.
+    pose proof (R (4 * length (pr pc false v) + 4)%nat [] eq_refl) as R'. rewrite app_nil_r in R'.
+    assert (F : (vsize v <= 4 * length (pr pc false v) + 4)%nat) by lia. specialize (R' F).
+    set (fuel := (4 * length (pr pc false v) + 4)%nat) in *.
+    assert (DW : drop_ws (pr pc false v) = pr pc false v) by (rewrite E; apply drop_ws_head, head_ok_ws, HO).
+    transitivity (match drop_ws (pr pc false v) with
+                  | [] => ROk []
+                  | l' => bind (read_next fuel l')
+                            (fun '(v0, r) => read_all (length (pr pc false v)) fuel r ([] ++ [v0]))
+                  end); [reflexivity|].
+    rewrite DW. rewrite E at 1. rewrite <- E. rewrite R'. cbn [bind].
+    rewrite E at 1. reflexivity.
   Qed.
 End Main.
